@@ -31,7 +31,7 @@ def hashseed_for(base, group):
     return str((base * 7919 + group * 104729 + 12345) % 4294967295)
 
 
-ENV_SWITCHES = ("EPSILON", "NUMERIC_PRECISION", "PYTHONOPTIMIZE")
+ENV_SWITCHES = ("EPSILON", "NUMERIC_PRECISION", "PYTHONOPTIMIZE", "LC_ALL", "PYTHONUTF8", "PYTHONCOERCECLOCALE")
 
 
 def group_env(g, ngroups):
@@ -46,7 +46,9 @@ def group_env(g, ngroups):
     if ngroups > 3 and g == 1:
         # the documented tolerance switch at a legal non-default value: exact comparisons (the reference interpreter
         # reads the same variable)
-        return {"EPSILON": "0"}
+        # ... and a locale whose encoding is not UTF-8 (POSIX locale with Python's UTF-8 mode and locale coercion off): text
+        # files must be read and written the same way whatever the locale is
+        return {"EPSILON": "0", "LC_ALL": "C", "PYTHONUTF8": "0", "PYTHONCOERCECLOCALE": "0"}
     if ngroups > 2 and g == ngroups - 2:
         # the interpreter's optimisation switch (python -O): assert statements are compiled away - a library whose
         # behaviour lives inside an assert changes; the harness itself uses no assert for anything it decides
@@ -262,7 +264,7 @@ def cmd_check(a):
                          "stub": list(prop.REAL_VS_STUB.get("stub", [])) + [
                              "directory listings under the simulated root (glob / listdir / scandir: permuted)",
                              "file clock (in half of the runs every file written under the simulated root keeps one mtime)",
-                             "interpreter environment per worker group (plain, EPSILON=0, python -O, NUMERIC_PRECISION=3)",
+                             "interpreter environment per worker group (plain, EPSILON=0 + C locale without UTF-8 mode, python -O, NUMERIC_PRECISION=3)",
                              "application logging configuration (disabled / DEBUG with a NullHandler)"]},
         "repo_head": repo_head(), "repo_dirty": repo_dirty(),
         "known_findings_hit": [l for l in lines if l.startswith("KNOWN-FINDING")],
